@@ -185,6 +185,12 @@ int vp_case(Choice& c, Report& rep) {
     rep.note("projection order=%d Fs=%d ch=%d streams=%d coupled=%d bitrate=%d", order, Fs, ch, streams, coupled, e.bitrate);
   }
   rep.label(kind == SINGLE ? "kind:single" : kind == MULTI ? "kind:multistream" : "kind:projection");
+  bool ms_boundary = kind != SINGLE && streams >= 2 && c.chance(70);
+  if (ms_boundary) {
+    // every stream must fill its share of the buffer
+    if (kind == MULTI) { opus_multistream_encoder_ctl(msenc.p, OPUS_SET_BITRATE(OPUS_BITRATE_MAX)); opus_multistream_encoder_ctl(msenc.p, OPUS_SET_VBR(c.irange(0, 1))); }
+    else { opus_projection_encoder_ctl(pjenc.p, OPUS_SET_BITRATE(OPUS_BITRATE_MAX)); opus_projection_encoder_ctl(pjenc.p, OPUS_SET_VBR(c.irange(0, 1))); }
+  }
 
   int nsteps = 1 + c.irange(0, kind == SINGLE ? 15 : 7);
   uint64_t sig_seed = c.u32();
@@ -196,7 +202,7 @@ int vp_case(Choice& c, Report& rep) {
   int total_samples = 0;
   for (int step = 0; step < nsteps; step++) {
     // --- optional ctl changes
-    int nch = (c.chance(90) && !stress_silk) ? c.irange(1, 3) : 0;
+    int nch = (c.chance(90) && !stress_silk && !ms_boundary) ? c.irange(1, 3) : 0;
     for (int k = 0; k < nch; k++) {
       if (kind == SINGLE) gen_ctl_change(c, rep, [&](int req, int v) { return opus_encoder_ctl(enc.p, req, v); }, ch, expert, true);
       else if (kind == MULTI) gen_ctl_change(c, rep, [&](int req, int v) { return opus_multistream_encoder_ctl(msenc.p, req, v); }, 1, expert, false);
@@ -213,6 +219,8 @@ int vp_case(Choice& c, Report& rep) {
     total_samples += fs;
     int maxb = gen_max_bytes(c);
     if (kind != SINGLE && maxb < 4000 && c.chance(160)) maxb = 4000;
+    // class "self-delimited length boundary": a non-final stream whose budget sits at the 251..255-byte edge of the one/two-byte length code
+    if (kind != SINGLE && ms_boundary) { maxb = 248 + c.irange(0, 16) + (streams > 2 ? 254 * c.irange(0, streams - 2) : 0); rep.label("class:ms-length-boundary"); }
     int fmt = c.irange(0, 2);                       // 0 int16, 1 int24, 2 float
     std::vector<float> x;
     sig::generate(family, sig_seed, Fs, ch, fs, amp, x, sig_pos);
